@@ -568,7 +568,11 @@ func (e1Engine) Generate(seed uint64, prop, tier string) (json.RawMessage, error
 		case r < 560:
 			s := g.Intn(nsess)
 			if s == svc && !g.Chance(1, 20) {
-				add(e1Step{K: "line", S: s, Data: servicesLine(g), Svc: true})
+				st := e1Step{K: "line", S: s, Data: servicesLine(g), Svc: true}
+				if g.Chance(1, 20) {
+					st.Cmid = uint64(g.Range(1, 3)) // a link's POSTs are retried like anybody's
+				}
+				add(st)
 			} else if s != svc {
 				l, c := clientLine(g)
 				st := e1Step{K: "line", S: s, Data: l, Captcha: c}
